@@ -50,21 +50,90 @@ def build_replay():
     return os.path.join(BUILD, "target", "debug", "verif_replay")
 
 
+CALL_TIMEOUT_S = 20  # a builtin call on a grid input takes milliseconds; silence this long is a hang
+MEM_LIMIT = 6 << 30  # address-space cap of the replay process (a runaway collect() must not take the sandbox down)
+MAX_HANGS_PER_BUILTIN = 2
+
+
+def _limit_mem():
+    import resource
+
+    resource.setrlimit(resource.RLIMIT_AS, (MEM_LIMIT, MEM_LIMIT))
+
+
 def run_calls(binary, calls):
-    res = []
-    for k in range(0, len(calls), 400):
-        chunk = calls[k : k + 400]
-        p = subprocess.run([binary], input=json.dumps(chunk), capture_output=True, text=True, timeout=900)
-        if p.returncode != 0:
-            # an abort (e.g. stack overflow) takes the whole chunk down: find the call by bisection
-            for c in chunk:
-                q = subprocess.run([binary], input=json.dumps([c]), capture_output=True, text=True, timeout=300)
-                if q.returncode != 0:
-                    res.append({"abort": q.stderr[-200:]})
-                else:
-                    res.extend(json.loads(q.stdout))
-        else:
-            res.extend(json.loads(p.stdout))
+    """Runs the calls on the replay binary in streaming mode.  A call that makes the process die (abort, stack
+    overflow, allocation failure under the memory cap) is reported as {"abort": ..}; one that produces nothing for
+    CALL_TIMEOUT_S seconds is reported as {"hang": ..} and the process is restarted after it.  After
+    MAX_HANGS_PER_BUILTIN hangs/aborts of one builtin its remaining calls are skipped ({"skipped": true})."""
+    import queue
+    import threading
+
+    res = [None] * len(calls)
+    bad = {}
+    k = 0
+    while k < len(calls):
+        # skip calls of builtins that already hung / aborted too often
+        while k < len(calls) and bad.get(calls[k].get("builtin"), 0) >= MAX_HANGS_PER_BUILTIN:
+            res[k] = {"skipped": True}
+            k += 1
+        if k >= len(calls):
+            break
+        chunk_end = min(len(calls), k + 400)
+        chunk = calls[k:chunk_end]
+        p = subprocess.Popen([binary, "--stream"], stdin=subprocess.PIPE, stdout=subprocess.PIPE, stderr=subprocess.PIPE, text=True, preexec_fn=_limit_mem)
+        q = queue.Queue()
+
+        def reader(pp=p, qq=q):
+            for line in pp.stdout:
+                qq.put(line)
+            qq.put(None)
+
+        t = threading.Thread(target=reader, daemon=True)
+        t.start()
+        try:
+            p.stdin.write(json.dumps(chunk))
+            p.stdin.close()
+        except BrokenPipeError:
+            pass
+        done = 0
+        verdict = None
+        while done < len(chunk):
+            name = chunk[done].get("builtin")
+            if bad.get(name, 0) >= MAX_HANGS_PER_BUILTIN:
+                # cannot skip inside a running process: restart after marking
+                verdict = "restart"
+                break
+            try:
+                line = q.get(timeout=CALL_TIMEOUT_S)
+            except queue.Empty:
+                verdict = "hang"
+                break
+            if line is None:
+                verdict = "abort"
+                break
+            res[k + done] = json.loads(line)
+            done += 1
+        if verdict in ("hang", "abort", "restart"):
+            try:
+                p.kill()
+            except OSError:
+                pass
+            err = ""
+            try:
+                err = (p.stderr.read() or "")[-200:]
+            except Exception:
+                pass
+            if verdict == "hang":
+                res[k + done] = {"hang": "no result within %d s" % CALL_TIMEOUT_S}
+                bad[chunk[done].get("builtin")] = bad.get(chunk[done].get("builtin"), 0) + 1
+                done += 1
+            elif verdict == "abort":
+                res[k + done] = {"abort": err or "process died"}
+                bad[chunk[done].get("builtin")] = bad.get(chunk[done].get("builtin"), 0) + 1
+                done += 1
+        p.wait()
+        k += done
     return res
 
 
@@ -468,7 +537,9 @@ def calls_for(name, rng, cap):
 
 
 def agrees(expect, got):
-    if "panic" in got or "abort" in got:
+    if got is None or "skipped" in got:
+        return True  # not run (its builtin already hung / aborted on other inputs): no verdict from this call
+    if "panic" in got or "abort" in got or "hang" in got:
         return False
     if expect[0] == "err":
         return "err" in got
